@@ -456,6 +456,19 @@ def check_vtu(ctx, work, written_case, tags, rep, in_model=True):
         ctx.inconsistent(slim, "lean-spec=" + rep["spec"][:300], "python-oracle differs: " + describe_diff(exp, spec))
     if spec is not None and not _canon_eq(spec, back):
         ctx.mismatch(slim, describe_diff(spec, back), "lean spec", what="implementation read-back differs from Fc.W.Spec.normalise")
+    # the model's own read-back of the model-written file (`readVtu (writeVtu F)`, full digest) against the
+    # implementation's read-back of the implementation-written file
+    mback = parse_digest(rep["back"])
+    if mback is None or not _canon_eq(mback, back):
+        ctx.mismatch(slim, describe_diff(mback, back) if mback is not None else "model read-back fails",
+                     "Fc.W.readVtu (Fc.W.writeVtu F)",
+                     what="implementation read-back differs from the model's read-back of the model-written file")
+    elif list(mback["cells"]) != list(back["cells"]):
+        # the ORDER of the cell types of the read mesh is not part of the property (compared as a mapping above),
+        # but the model fixes it (`np.unique` = ascending VTK id, theorem C13_unique_order): keep model and code tied
+        ctx.mismatch(slim, list(back["cells"]), list(mback["cells"]),
+                     what="order of the cell types of the read mesh differs from the model (np.unique order)")
+    ctx.dist["vtu-readback-compared-with-model-readback"] += 1
     mf = parse_file(rep["file"])
     if mf is None:
         ctx.mismatch(slim, "file written", "model writer fails", what="model writer raises inside hyp")
